@@ -29,8 +29,11 @@ type c15Case struct {
 	Ops    string `json:"ops"`                        // e.g. "wsrwpe"
 	Crash  int    `json:"crash_before_journal_entry"` // -1: no crash during the history (crash after it, everything flushed by nobody)
 	Tail   int    `json:"surviving_unsynced_tail_bytes"`
-	Cycle2 bool   `json:"second_cycle"` // append two synced records after recovery, crash cleanly, recover again
+	Cycle2 bool   `json:"second_cycle"`       // append two synced records after recovery, crash cleanly, recover again
 	Flip   int    `json:"flip_byte_from_end"` // > 0: flip that byte (counted from the end of the head file) before recovery
+	// HighIndex: an (empty) rolled file with index 998 exists before the WAL is first opened, so that the head starts as file 999
+	// and rotations take the group past index 999 (file names with four digits)
+	HighIndex bool `json:"high_index,omitempty"`
 }
 
 const (
@@ -183,12 +186,22 @@ func c15Run(r *vr.Report, c c15Case) (key, what string) {
 				histErr = fmt.Errorf("panic: %v", x)
 			}
 		}()
+		if c.HighIndex {
+			if err := vos.MkdirAll(filepath.Dir(walPath), 0o700); err != nil {
+				panic(err)
+			}
+			if err := vos.WriteFile(walPath+".998", []byte{}, 0o600); err != nil {
+				panic(err)
+			}
+			w.SyncAll()
+			m.maxIndex = 999
+		}
 		if c.Crash >= 0 {
 			w.CrashBefore(c.Crash)
 		}
 		var err error
 		// OnStart writes and syncs EndHeight(0) into the empty head
-		m.recs = append(m.recs, &c15Rec{id: 0, file: 0, written: true})
+		m.recs = append(m.recs, &c15Rec{id: 0, file: m.maxIndex, written: true})
 		wal, err = c15Open(walPath)
 		if err != nil {
 			histErr = err
@@ -555,6 +568,9 @@ func TestVerifC15Wal(t *testing.T) {
 		w.Close()
 		// crash right after the history, nothing torn; and single-byte corruptions near the end
 		try(c15Case{Ops: ops, Crash: -1, Cycle2: true}, false)
+		if strings.Contains(ops, "r") {
+			try(c15Case{Ops: ops, Crash: -1, Cycle2: true, HighIndex: true}, true)
+		}
 		if len(ops) == maxLen || len(ops) <= 2 {
 			for fb := 1; fb <= 60; fb++ {
 				try(c15Case{Ops: ops, Crash: -1, Flip: fb}, true)
